@@ -199,11 +199,75 @@ type hist struct {
 	info   map[string]interface{}
 	ops    []string
 	failed bool
+	m      *model
+	namer  bool // the table comes from the handle's NamingStrategy (no Table()/Scopes per call)
+	scoped int  // calls that named the table through a scope
 	// known rows: pk canon values + v1 leaf canon
 	known []map[string]string
 }
 
-func (x *hist) tx() *gorm.DB { return x.h.DB.Table(x.table).Session(&gorm.Session{}) }
+// ---- how a call names the table of a single-table history ----
+//
+// db.Table(t), a scope that calls Table(t), a scope that registers that scope (a scope may register
+// further scopes: gorm runs them generation by generation), three levels, a do-nothing scope next to
+// it - all the same request. In `namer` histories nothing is said per call: the handle's
+// NamingStrategy gives the (anonymous) model type its table, as a named type would have it.
+
+func tblScope(t string) func(*gorm.DB) *gorm.DB {
+	return func(db *gorm.DB) *gorm.DB { return db.Table(t) }
+}
+
+func nestScope(f func(*gorm.DB) *gorm.DB) func(*gorm.DB) *gorm.DB {
+	return func(db *gorm.DB) *gorm.DB { return db.Scopes(f) }
+}
+
+func noopScope(db *gorm.DB) *gorm.DB { return db }
+
+const selNotation = "tbl(t) = func(db *gorm.DB) *gorm.DB { return db.Table(t) }; nest(f) = func(db *gorm.DB) *gorm.DB { return db.Scopes(f) }; noop = func(db *gorm.DB) *gorm.DB { return db }"
+
+// sel returns a reusable handle that names the table, and its literal text; the form is drawn per call.
+func (x *hist) sel() (*gorm.DB, string) {
+	if x.namer {
+		return x.h.DB.Session(&gorm.Session{}), "db"
+	}
+	t := x.table
+	var db *gorm.DB
+	var text string
+	switch x.c.R.Intn(10) {
+	case 0:
+		db, text = x.h.DB.Scopes(tblScope(t)), fmt.Sprintf("db.Scopes(tbl(%q))", t)
+	case 1, 2:
+		db, text = x.h.DB.Scopes(nestScope(tblScope(t))), fmt.Sprintf("db.Scopes(nest(tbl(%q)))", t)
+	case 3:
+		db, text = x.h.DB.Scopes(nestScope(nestScope(tblScope(t)))), fmt.Sprintf("db.Scopes(nest(nest(tbl(%q))))", t)
+	case 4:
+		if x.c.R.Bool() {
+			db, text = x.h.DB.Scopes(noopScope, nestScope(tblScope(t))), fmt.Sprintf("db.Scopes(noop, nest(tbl(%q)))", t)
+		} else {
+			db, text = x.h.DB.Scopes(nestScope(tblScope(t)), noopScope), fmt.Sprintf("db.Scopes(nest(tbl(%q)), noop)", t)
+		}
+	default:
+		db, text = x.h.DB.Table(t), fmt.Sprintf("db.Table(%q)", t)
+	}
+	if text != fmt.Sprintf("db.Table(%q)", t) {
+		x.scoped++
+		if x.info == nil {
+			x.info = map[string]interface{}{}
+		}
+		x.info["notation"] = selNotation
+	}
+	return db.Session(&gorm.Session{}), text
+}
+
+func (x *hist) tx() *gorm.DB { db, _ := x.sel(); return db }
+
+// parseTable is the table name handed to the schema parser (none when the naming strategy decides).
+func (x *hist) parseTable() string {
+	if x.namer {
+		return ""
+	}
+	return x.table
+}
 
 func (x *hist) op(f string, a ...interface{}) { x.ops = append(x.ops, fmt.Sprintf(f, a...)) }
 
@@ -259,32 +323,38 @@ func leavesOf(h *vdb.Handle, table string, t reflect.Type) []*leaf {
 	return out
 }
 
-func (x *hist) migrate(t reflect.Type, label string) (ddl []string, err error) {
+func (x *hist) migrate(t reflect.Type, label string, also ...interface{}) (ddl []string, err error) {
 	mark := x.h.Rec.Mark()
+	db, sel := x.sel()
+	args := func(v interface{}) []interface{} { return append([]interface{}{v}, also...) }
+	alsoText := ""
+	if len(also) > 0 {
+		alsoText = ", " + names(also)
+	}
 	// call form, drawn per call: the four are the same request
-	form := "db.Table(%q).AutoMigrate(&%s{})"
+	form := "%s.AutoMigrate(&%s{}%s)"
 	switch x.c.R.Intn(10) {
 	case 0, 1:
-		form = "db.Table(%q).Migrator().AutoMigrate(&%s{})"
-		err = x.tx().Migrator().AutoMigrate(reflect.New(t).Interface())
+		form = "%s.Migrator().AutoMigrate(&%s{}%s)"
+		err = db.Migrator().AutoMigrate(args(reflect.New(t).Interface())...)
 	case 2:
-		form = "db.Table(%q).AutoMigrate(%s{})"
-		err = x.tx().AutoMigrate(reflect.New(t).Elem().Interface())
+		form = "%s.AutoMigrate(%s{}%s)"
+		err = db.AutoMigrate(args(reflect.New(t).Elem().Interface())...)
 	case 3:
-		form = "tx := db.Table(%q).Begin(); tx.AutoMigrate(&%s{}); tx.Commit() [Rollback on error]"
-		tx := x.tx().Begin()
+		form = "tx := %s.Begin(); tx.AutoMigrate(&%s{}%s); tx.Commit() [Rollback on error]"
+		tx := db.Begin()
 		if err = tx.Error; err == nil {
-			if err = tx.AutoMigrate(reflect.New(t).Interface()); err != nil {
+			if err = tx.AutoMigrate(args(reflect.New(t).Interface())...); err != nil {
 				tx.Rollback()
 			} else {
 				err = tx.Commit().Error
 			}
 		}
 	default:
-		err = x.tx().AutoMigrate(reflect.New(t).Interface())
+		err = db.AutoMigrate(args(reflect.New(t).Interface())...)
 	}
 	ddl = ddlOf(x.h.Rec.Since(mark))
-	x.op(form+"  -> err=%v, %d schema-changing statements", x.table, label, err, len(ddl))
+	x.op(form+"  -> err=%v, %d schema-changing statements", sel, label, alsoText, err, len(ddl))
 	return
 }
 
@@ -415,8 +485,9 @@ func (x *hist) gormCreate(t reflect.Type, ls []*leaf, label string, zeroKey bool
 		}
 		setGo(rec.Elem(), l, vals[k])
 	}
-	err := x.tx().Create(rec.Interface()).Error
-	x.op("db.Table(%q).Create(&%s{...row %d...}) -> err=%v", x.table, label, x.rows, err)
+	db, sel := x.sel()
+	err := db.Create(rec.Interface()).Error
+	x.op("%s.Create(&%s{...row %d...}) -> err=%v", sel, label, x.rows, err)
 	if err == nil && zeroKey {
 		for k, l := range ls {
 			if l.f.PrimaryKey {
@@ -458,8 +529,9 @@ func (x *hist) checkRoundTrip(t reflect.Type, ls []*leaf, rec reflect.Value, val
 	}
 	out := reflect.New(t)
 	w, args := pkWhere(ls, rec.Elem())
-	if err := x.tx().Where(w, args...).First(out.Interface()).Error; err != nil {
-		problems = append(problems, fmt.Sprintf("First(%s %v): %v", w, args, err))
+	db, sel := x.sel()
+	if err := db.Where(w, args...).First(out.Interface()).Error; err != nil {
+		problems = append(problems, fmt.Sprintf("%s.Where(%q, %v).First: %v", sel, w, args, err))
 	} else {
 		for k, l := range ls {
 			if g, want := fromGo(out.Elem(), l), canon(l, vals[k]); g != want {
@@ -674,12 +746,33 @@ func (x *hist) checkObjects(m *model, ls []*leaf, v2 bool) (missing, foreign []s
 // run executes the history; m may be nil (static types: no generator expectations).
 func (x *hist) run(m *model, name1, name2 string) {
 	c := x.c
-	x.l1 = leavesOf(x.h, x.table, x.t1)
-	x.l2 = leavesOf(x.h, x.table, x.t2)
+	x.m = m
+	defer func() { c.Add("calls_naming_table_through_scope", x.scoped) }()
+	// declared types on the other side of generated relations: passed along with the model or left to
+	// AutoMigrate's dependency resolution; in v1 already (then with a row) or new in v2
+	var also1, also2, also3 []interface{}
+	if m != nil {
+		for _, rg := range m.rels {
+			if c.R.Bool() {
+				also1 = append(also1, reflect.New(rg.tgt.typ).Interface())
+			}
+			if c.R.Chance(1, 3) {
+				also2 = append(also2, reflect.New(rg.tgt.typ).Interface())
+			}
+			if c.R.Chance(1, 3) {
+				also3 = append(also3, reflect.New(rg.tgt.typ).Interface())
+			}
+		}
+	}
+	x.l1 = leavesOf(x.h, x.parseTable(), x.t1)
+	x.l2 = leavesOf(x.h, x.parseTable(), x.t2)
+	x.resolveJoins(x.t1, false)
+	x.resolveJoins(x.t2, true)
 
 	// 1. migrate(v1) on the empty database
-	if _, err := x.migrate(x.t1, name1); err != nil {
-		x.violation("migrate_v1_error", map[string]interface{}{"error": err.Error()})
+	ddl1, err := x.migrate(x.t1, name1, also1...)
+	if err != nil {
+		x.violation("migrate_v1_error"+x.migrateErrorClass(err, false), map[string]interface{}{"error": err.Error(), "schema_changing_statements": ddl1})
 		return
 	}
 	miss, foreign := x.checkObjects(m, x.l1, false)
@@ -690,6 +783,18 @@ func (x *hist) run(m *model, name1, name2 string) {
 	if len(miss) > 0 {
 		x.violation("v1_object_missing", map[string]interface{}{"missing": miss})
 		return
+	}
+	if !x.checkJoins(false, ddl1) {
+		return
+	}
+	if m != nil {
+		have := setOf(vdb.Tables(x.h.SQL))
+		for _, rg := range m.rels {
+			if have[rg.tgt.table] {
+				x.rawTargetRow(rg.tgt)
+				x.op("1 row inserted into %s with raw SQL", rg.tgt.table)
+			}
+		}
 	}
 	// 2. rows: raw SQL and gorm
 	nRaw := c.R.Range(1, 5)
@@ -716,10 +821,11 @@ func (x *hist) run(m *model, name1, name2 string) {
 		x.remember(x.l1, vals)
 	}
 	before := x.dump(x.l1)
+	sideBefore := x.sideDump()
 	ddlBefore := x.masterSQL()
 
 	// 3. migrate(v1) again: the database matches the model
-	ddl, err := x.migrate(x.t1, name1)
+	ddl, err := x.migrate(x.t1, name1, also1...)
 	if err != nil {
 		x.violation("remigrate_v1_error", map[string]interface{}{"error": err.Error()})
 		return
@@ -738,14 +844,24 @@ func (x *hist) run(m *model, name1, name2 string) {
 
 	// 4. migrate(v2)
 	ddlBefore = x.masterSQL()
-	ddl2, err := x.migrate(x.t2, name2)
+	if after := x.sideDump(); !same(sideBefore, after) {
+		x.violation("remigrate_v1_data", diff(sideBefore, after))
+		return
+	}
+	ddl2, err := x.migrate(x.t2, name2, also2...)
 	if err != nil {
-		x.violation("migrate_v2_error", map[string]interface{}{"error": err.Error(), "table_ddl_before": ddlBefore, "rows_before": before})
+		x.violation("migrate_v2_error"+x.migrateErrorClass(err, true), map[string]interface{}{"error": err.Error(), "table_ddl_before": ddlBefore, "rows_before": before, "schema_changing_statements": ddl2})
 		return
 	}
 	c.Add("v2_migration_statements", len(ddl2))
 	if after := x.dump(x.l1); !same(before, after) {
 		d := diff(before, after)
+		d["schema_changing_statements"] = ddl2
+		x.violation("v2_data_changed", d)
+		return
+	}
+	if after := x.sideDump(); !same(sideBefore, after) {
+		d := diff(sideBefore, after)
 		d["schema_changing_statements"] = ddl2
 		x.violation("v2_data_changed", d)
 		return
@@ -768,6 +884,7 @@ func (x *hist) run(m *model, name1, name2 string) {
 		}
 		x.violation(sig, map[string]interface{}{"missing": miss, "schema_changing_statements": ddl2, "table_ddl_before": ddlBefore})
 	}
+	joinsOK := x.checkJoins(true, ddl2)
 	// old rows through the new model
 	x.checkOldRows()
 
@@ -793,8 +910,9 @@ func (x *hist) run(m *model, name1, name2 string) {
 		sl.Elem().Set(reflect.Append(sl.Elem(), e))
 		svals = append(svals, v)
 	}
-	err = x.tx().Create(sl.Interface()).Error
-	x.op("db.Table(%q).Create(&[]%s{2 records}) -> err=%v", x.table, name2, err)
+	db, sel := x.sel()
+	err = db.Create(sl.Interface()).Error
+	x.op("%s.Create(&[]%s{2 records}) -> err=%v", sel, name2, err)
 	if err != nil {
 		x.violation("create_v2_error", map[string]interface{}{"error": err.Error(), "how": "slice"})
 	} else {
@@ -811,10 +929,16 @@ func (x *hist) run(m *model, name1, name2 string) {
 		}
 	}
 
+	// 5b. records of the new model with associated records
+	if joinsOK {
+		x.relationRoundTrip(name2)
+	}
+
 	// 6. migrate(v2) again
 	before2 := x.dump(x.l2)
+	sideBefore = x.sideDump()
 	ddlBefore = x.masterSQL()
-	ddl, err = x.migrate(x.t2, name2)
+	ddl, err = x.migrate(x.t2, name2, also3...)
 	if err != nil {
 		x.violation("remigrate_v2_error", map[string]interface{}{"error": err.Error()})
 		return
@@ -828,6 +952,9 @@ func (x *hist) run(m *model, name1, name2 string) {
 	c.Inc("remigrations_checked")
 	if after := x.dump(x.l2); !same(before2, after) {
 		x.violation("remigrate_v2_data", diff(before2, after))
+	}
+	if after := x.sideDump(); !same(sideBefore, after) {
+		x.violation("remigrate_v2_data", diff(sideBefore, after))
 	}
 }
 
@@ -865,8 +992,9 @@ func (x *hist) checkOldRows() {
 			conds = append(conds, "`"+l.col+"` = "+sqlLit(row[l.col]))
 		}
 		out := reflect.New(x.t2)
-		if err := x.tx().Where(strings.Join(conds, " AND "), args...).First(out.Interface()).Error; err != nil {
-			x.violation("v2_old_row_unreadable", map[string]interface{}{"key": conds, "error": err.Error()})
+		db, sel := x.sel()
+		if err := db.Where(strings.Join(conds, " AND "), args...).First(out.Interface()).Error; err != nil {
+			x.violation("v2_old_row_unreadable", map[string]interface{}{"key": conds, "error": err.Error(), "read_with": sel + ".Where(key).First(&V2{})"})
 			return
 		}
 		var problems []string
@@ -899,14 +1027,32 @@ func sqlLit(canon string) string {
 func runGenerated(c *core.Ctx) {
 	r := c.R
 	m := genModel(r, c.Case)
-	h, err := vdb.Open(vdb.Options{})
+	o := vdb.Options{}
+	if m.namer {
+		o.Config.NamingStrategy = caseNamer{NamingStrategy: schema.NamingStrategy{IdentifierMaxLength: 64}, table: m.table}
+	}
+	h, err := vdb.Open(o)
 	if err != nil {
 		panic(err)
 	}
 	defer h.Close()
-	x := &hist{c: c, h: h, table: m.table, t1: m.structType(false), t2: m.structType(true),
+	x := &hist{c: c, h: h, table: m.table, t1: m.structType(false), t2: m.structType(true), namer: m.namer,
 		pkAuto: m.pkKind == "auto" || m.pkKind == "uintID"}
 	x.info = map[string]interface{}{"model_v1": m.describe(false), "model_v2": m.describe(true)}
+	if m.namer {
+		x.info["table_named_by"] = fmt.Sprintf("gorm.Config{NamingStrategy: gorm's default strategy, with TableName(\"\") = %q for the generated (anonymous) model type} - no Table()/Scopes per call", m.table)
+		c.Inc("histories_named_by_strategy")
+	}
+	if len(m.rels) > 0 {
+		x.info["declared_types"] = m.targetTexts()
+		c.Inc("histories_with_generated_many2many")
+		c.Add("generated_many2many_relations", len(m.rels))
+		for _, rg := range m.rels {
+			if rg.nonPK {
+				c.Inc("many2many_keyed_by_non_primary_column")
+			}
+		}
+	}
 	c.Logf("MODEL table=%s\n  v1: %s\n  v2: %s", m.table, strings.Join(m.describe(false), "\n      "), strings.Join(m.describe(true), "\n      "))
 	x.run(m, "V1", "V2")
 	c.Inc("histories_generated")
